@@ -82,15 +82,20 @@ def check_calderon(desc):
     # Calibrated on generated meshes of the unchanged tree (see DESIGN.md C01): `regular` = icosahedron/octahedron family with mild
     # edits, where the stated 1e-6 is reached at (20,14) with three orders of margin; `hard` = everything else (sharp dihedral angles,
     # thin tori, face splits), judged by decay and a loose absolute bound.
-    rules = {"regular": {"abs": [None, 1e-4, 1e-6], "decay": [None, 0.15, 0.01]}, "hard": {"abs": [None, 5e-3, 1e-3], "decay": [None, 0.5, 0.05]}}[cls]
+    # `hard` (thin triangles from face splits and jitter, coarse distorted tori, refined L-prisms: the near-singular *regular* pairs need
+    # orders beyond the ladder): measured on the unchanged tree up to 2.8e-2 / 8.8e-3 / 3.9e-3 on the three rungs and plateaus such as
+    # 1.6e-4 / 1.5e-4 / 3.7e-5, so only a gross bound (0.1) is demanded on every rung and, with three rungs, that the top rung is
+    # either small (<= 1e-4) or has decayed to half of the first. The stated 1e-6 is demanded in the `regular` class.
+    rules = {"regular": {"abs": [None, 1e-4, 1e-6], "decay": [None, 0.15, 0.01]}, "hard": {"abs": [None, 0.1, 0.1], "decay": [None, None, 0.5]}}[cls]
     for nm, rs, skip in (("first_identity", r1s, False), ("second_identity", r2s, const)):
         if skip:
             continue
         for i in range(1, len(rs)):
             if rs[i] > rules["abs"][i]:
                 _fail(f"{nm}/{cls}/abs", f"{nm}: relative residuals {['%.1e' % r for r in rs]} on ladder {ladder}; rung {i} above {rules['abs'][i]:g}; base {tag}")
-            if rs[0] > 1e-8 and rs[i] > rules["decay"][i] * rs[0]:
-                _fail(f"{nm}/{cls}/decay", f"{nm}: relative residuals {['%.1e' % r for r in rs]} on ladder {ladder} do not decay by the factor {rules['decay'][i]:g}; base {tag}")
+            dec = rules["decay"][i]
+            if dec is not None and rs[0] > 1e-8 and rs[i] > dec * rs[0] and (cls == "regular" or rs[i] > 1e-4):
+                _fail(f"{nm}/{cls}/decay", f"{nm}: relative residuals {['%.1e' % r for r in rs]} on ladder {ladder} do not decay by the factor {dec:g}; base {tag}")
     labels = ["calderon", cls, desc["mesh"].get("base", "?")]
     if const:
         labels.append("constant_u")
